@@ -7,7 +7,7 @@ from e2e import common, fsck as fsckmod, run_e2e, runner, scenario
 from props.c03 import view_of
 
 EXPECTED = ["C07_crash_during_publish", "C07_crash_during_transfers", "C07_leftovers_ignored", "C07_no_leftovers",
-            "C07_partial_not_unmodified", "C07_partial_not_shortcut", "C07_stale_lock", "C07_index_rerun_content", "C07_index_file_content", "C07_index_torso_refetched", "C07_crash_invariants", "C07_crash_rerun_converges", "C07_torso_not_accepted", "C07_crash_then_newer"]
+            "C07_partial_not_unmodified", "C07_partial_not_shortcut", "C07_stale_lock", "C07_index_rerun_content", "C07_index_file_content", "C07_index_file_content_on", "C07_index_stage_content", "C07_index_torso_refetched", "C07_crash_invariants", "C07_crash_rerun_converges", "C07_torso_not_accepted", "C07_crash_then_newer"]
 LEVEL = "proof"
 RULE = ("history = (optionally) a fault-free mirror of V1, then a run against V2 = evolve(V1) under a fault-plan class and a "
         "PRNG schedule; the run's filesystem-mutation sequence is cut at crash points k (audit hook fires before the k-th "
